@@ -2,13 +2,14 @@
 from circuit_common import *
 PROP = "C09"
 RULE = ("half-open bursts (open the breaker, wait, then many callers polled in random order with trial completions, cancellations and panics interleaved), "
-        "both window types, permitted 1..3 + multi-phase bursts (trials of an earlier half-open phase still in flight across re-open and the next half-open phase, then cancelled/completed, then more callers) + random concurrent scripts + classifier-panic trials; bursts include permitted 4..8, wait 0, slow (successful) trials and calls admitted while closed that complete during the phase; non-trivial = the breaker left Closed at least once")
+        "both window types, permitted 1..3 + multi-phase bursts (trials of an earlier half-open phase still in flight across re-open and the next half-open phase, then cancelled/completed, then more callers) + random concurrent scripts + classifier-panic trials; bursts include permitted 4..8, wait 0, slow (successful) trials and calls admitted while closed that complete during the phase, microsecond bursts (wait not a whole number of ms, some callers 1 µs early); non-trivial = the breaker left Closed at least once")
 
 
 def generate(rng, tier):
     k = 1 if tier == "quick" else 12
     return ([half_open_burst(rng) for _ in range(1000 * k)] + [multi_phase_burst(rng) for _ in range(500 * k)]
-            + [random_concurrent(rng) for _ in range(500 * k)] + [classifier_panic_trials(rng) for _ in range(100 * k)])
+            + [random_concurrent(rng) for _ in range(500 * k)] + [classifier_panic_trials(rng) for _ in range(100 * k)]
+            + [half_open_burst(rng, us=True) for _ in range(150 * k)])
 
 
 def monitor(s, t):
